@@ -393,6 +393,10 @@ class Merge(Expr):
                     right_index,
                     self.suffixes,
                     self.indicator,
+                    None,
+                    # The npartitions hint can leave the non-broadcast side with
+                    # fewer partitions than the broadcast side
+                    self.broadcast_side,
                 )
 
         if (shuffle_left_on or shuffle_right_on) and (
@@ -672,6 +676,7 @@ class BroadcastJoin(Merge, PartitionsFiltered):
         "suffixes",
         "indicator",
         "_partitions",
+        "_broadcast_side",
     ]
     _defaults = {
         "how": "inner",
@@ -682,7 +687,15 @@ class BroadcastJoin(Merge, PartitionsFiltered):
         "suffixes": ("_x", "_y"),
         "indicator": False,
         "_partitions": None,
+        "_broadcast_side": None,
     }
+
+    @functools.cached_property
+    def broadcast_side(self):
+        # decided by the Merge that created us
+        if self.operand("_broadcast_side") is not None:
+            return self.operand("_broadcast_side")
+        return super().broadcast_side
 
     def _divisions(self):
         # The index of the non-broadcast side only survives if the broadcast
